@@ -236,7 +236,7 @@ def run_check(pid, tier, replay_file=None):
         results = run_workers(binary, st["run"], nshards, env, pid + "-" + st["run"], timeout_s, cwd)
         for i, r in enumerate(results):
             res = r["res"]
-            if res is None or not res.get("done"):
+            if res is None or not res.get("done") or r["rc"] != 0:
                 # the worker died: report its in-flight state
                 tail = r["log"][-3000:]
                 if res is not None:
